@@ -82,7 +82,10 @@ def loop (i : Bytes) : Nat → Nat → Nat → Bool → Pkt → Option Pkt → L
   | 0, _, _, _, o, n, q => (o, n, q)        -- (fuel exhausted: not reached, fuel = P + 1)
   | fuel + 1, x, s, m, o, n, q =>
     if x < P ∧ q ≠ [] then
-      if elide i s m (takeNext o n q).1 then
+      -- a packet that carries key material is never packed behind others: kept back
+      if hasFlag (takeNext o n q).1.flags Facts.flagCrypt ∧ Flag.len o.flags > 0 then
+        (o, some (takeNext o n q).1, (takeNext o n q).2)
+      else if elide i s m (takeNext o n q).1 then
         loop i fuel (x + 1) s m o none (takeNext o n q).2
       else if s > 0 ∧ s + Packet.size (takeNext o n q).1 > F then
         (o, some (takeNext o n q).1, (takeNext o n q).2)       -- does not fit: carried over
@@ -154,11 +157,12 @@ def skipGroup (last : Nat) : Pkt → List Pkt → Pkt × List Pkt
   | n, [] => (n, [])
   | n, h :: tl => if Flag.group n.flags = last then skipGroup last h tl else (n, h :: tl)
 
-def isRekey (n : Pkt) : Bool := n.id = 0 && hasFlag n.flags Facts.flagCrypt
+/-- a packet that carries key material (re-key announcement, re-registration hello) -/
+def isRekey (n : Pkt) : Bool := hasFlag n.flags Facts.flagCrypt
 
 /-- the rest of `next` once a packet `n` has been picked and `q` is what is left in the queue -/
 def nextFrom (last : Nat) (i : Bytes) (n : Pkt) (q : List Pkt) : Option Pkt × St :=
-  -- a re-key packet (ID 0 with the Crypt flag) is always sent on its own
+  -- a packet with key material (Crypt flag) is always sent on its own
   if (q = [] ∨ isRekey n) ∧ (verify n i).2 then
     (some (verify n i).1, { q := q, peek := none, last := 0 })
   else if last > 0 then
